@@ -30,7 +30,8 @@ RULE = ("seeded histories (3-14 requests) over a heap of quantities: Measurement
         "(MeasurementArray(arr, error=) and XYDataSet(xdata=arr, ydata=arr, xerr=, yerr=)), the "
         "error / relative_error / value setters on single, repeated and derived quantities, the "
         "use_* selectors, arithmetic with quantity / number / (v, e)-pair operands, unary minus and "
-        "sin / cos / atan, "
+        "sin / cos / atan, powers (negative / zero / positive base to int and float constants, to a "
+        "quantity, constant ** quantity), a rejected relative uncertainty r >= 0 judged directly, "
         "and the Monte Carlo results of calculated quantities (error_method = Monte Carlo with the "
         "mean-and-std strategy, use_mode_with_confidence at valid and invalid confidences — also on "
         "x*x, 1-x*x, -(x*x) with x = 0 +/- s, whose histogram peaks in the first / last bin — and "
